@@ -7,7 +7,7 @@ From DBG Require Import Proofs.AbstractWalk.
 From DBG Require Import Spec.Dna Spec.GraphIndex Spec.Unitig Spec.CompressSpec Packed.ExtsModel Algo.Compress
   Algo.GraphModel Spec.EdgeSpec Proofs.ListFacts Proofs.DnaFacts Proofs.KmerAlgebra Proofs.ExtsProofs Proofs.ExtsWalk
   Proofs.CompressBasics Proofs.CompressRefine Proofs.CompressWalk Proofs.CompressProofs Proofs.GraphQueryProofs
-  Proofs.ValidGraphProofs Proofs.DeriveExts Proofs.ComposeSweeps.
+  Proofs.ValidGraphProofs Proofs.DeriveExts Proofs.CompressEntry Proofs.ComposeSweeps.
 Import ListNotations.
 Local Open Scope nat_scope.
 
@@ -46,6 +46,13 @@ Lemma wf_kmers_ K (s : dna) k : wf_dna s -> In k (kmers K s) -> wf_dna k.
 Proof.
   intros W H. unfold kmers in H. apply in_map_iff in H as [i [<- _]]. unfold kmer_at, sub.
   apply Forall_forall. intros x Hx. apply in_firstn, in_skipn in Hx. unfold wf_dna in W. rewrite Forall_forall in W. auto.
+Qed.
+Lemma is_pal_rc (k : dna) : wf_dna k -> is_palindrome (rc k) = is_palindrome k.
+Proof.
+  intro W. destruct (is_palindrome k) eqn:E.
+  - apply palindrome_iff in E. rewrite <- E. now apply palindrome_iff.
+  - destruct (is_palindrome (rc k)) eqn:E2; [|reflexivity]. apply palindrome_iff in E2.
+    rewrite ListFacts.rc_involutive in E2 by exact W. symmetry in E2. apply palindrome_iff in E2. congruence.
 Qed.
 Lemma term_in_kmers K (s : dna) d : 1 <= K -> K <= length s -> In (term_kmer K s d) (kmers K s).
 Proof.
@@ -153,7 +160,7 @@ Proof.
   intros Hin Hb He x y c Hy.
   assert (Wx : wf_dna x) by now apply (ok_wf _ _ _ _ Hok).
   assert (Wy : wf_dna y) by (apply extend_wf; auto).
-  assert (Hc : (c < 4)%N) by (apply (outer_lt4 D K stranded T Hok); auto).
+  assert (Hc : (c < 4)%N) by (apply (outer_lt4 D K stranded HK T Hok); auto).
   destruct (oexts_inv y ey Hy) as (yent & Hyin & Hg & Hyk & Hcase).
   destruct (kcanon_flip stranded y) as [yk fl] eqn:Ef.
   assert (Hfst : fst (kcanon_flip stranded y) = ck y).
@@ -201,12 +208,12 @@ Proof.
     + pose proof (proj1 (kpal_iff y) Hp) as [_ Hyy].
       assert (Hy' : oexts (extend (e_key D ent) (comp b) (dflip s)) = Some ey) by (rewrite <- Hyr, <- Hyy; exact Hy).
       destruct (osym_key ent (dflip s) (comp b) ey Hin (comp_lt4 b) He Hy') as [_ P].
-      rewrite <- Hyr, Hpr, Hp in P. specialize (P eq_refl). rewrite Hc, !dflip_dflip, comp_involutive in P by exact Hc4.
+      rewrite <- Hyr in P. specialize (P Hpr). rewrite Hc, !dflip_dflip, comp_involutive in P by exact Hc4.
       split; [discriminate|]. intros _. tauto.
     + assert (Hyne : y <> rc y) by (intro E; assert (kpal y = true) by (apply kpal_iff; auto); congruence).
       pose proof (oexts_rc y ey Wy Hs Hyne Hy) as Hy'. rewrite Hyr in Hy'.
       destruct (osym_key ent (dflip s) (comp b) (e_rc ey) Hin (comp_lt4 b) He Hy') as [P _].
-      rewrite <- Hyr, Hpr, Hp in P. specialize (P eq_refl). rewrite Hc, !dflip_dflip in P.
+      rewrite <- Hyr in P. specialize (P Hpr). rewrite Hc, !dflip_dflip in P.
       rewrite has_ext_rc' in P by (eauto using oexts_lt, comp_lt4). rewrite comp_involutive in P by exact Hc4.
       split; [intros _; exact P | discriminate].
 Qed.
@@ -226,14 +233,14 @@ Proof. intro H. destruct w as [|a w]; [cbn; lia|]. apply wf_last; [exact H | dis
 
 Lemma node_seq_wf lp i rp : wf_dna (node_seq D T lp i rp).
 Proof.
-  unfold node_seq. apply wf_app. split; [|apply wf_app; split; [apply kkey_wf|]].
+  unfold CompressRefine.node_seq. apply wf_app; [|apply wf_app; [apply kkey_wf|]].
   - apply Forall_rev. apply Forall_forall. intros x Hx. apply in_map_iff in Hx as [wt [<- _]].
     apply hd_lt4. unfold CompressRefine.owin. apply orient_wf, kkey_wf.
   - apply Forall_forall. intros x Hx. apply in_map_iff in Hx as [wt [<- _]].
     apply last_lt4. unfold CompressRefine.owin. apply orient_wf, kkey_wf.
 Qed.
 
-Lemma chain_nonpal i s p : chain nat anext i s p ->
+Lemma chain_nonpal i s p : AbstractWalk.chain nat anext i s p ->
   (p <> [] -> kpal (kkey i) = false) /\ forall wt, In wt p -> kpal (kkey (fst wt)) = false.
 Proof.
   induction 1 as [v s | v s w t p Hn Hc IH].
@@ -243,6 +250,16 @@ Proof.
     split.
     + intros _. unfold CompressRefine.kkey. now rewrite Hi.
     + intros wt [<-|Hin]; [cbn [fst]; unfold CompressRefine.kkey; now rewrite Hj | now apply (proj2 IH)].
+Qed.
+
+Lemma verts_nonpal lp i rp v : AbstractWalk.chain nat anext i L lp -> AbstractWalk.chain nat anext i R rp ->
+  lp <> [] \/ rp <> [] -> In v (node_verts nat lp i rp) -> kpal (kkey v) = false.
+Proof.
+  intros HcL HcR Hne Hv. destruct (chain_nonpal _ _ _ HcL) as [P1 P2]. destruct (chain_nonpal _ _ _ HcR) as [P3 P4].
+  apply in_node in Hv. destruct Hv as [Hv|[->|Hv]].
+  - unfold verts in Hv. apply in_map_iff in Hv as [wt [<- Hwt]]. now apply P2.
+  - destruct Hne; auto.
+  - unfold verts in Hv. apply in_map_iff in Hv as [wt [<- Hwt]]. now apply P4.
 Qed.
 
 (* ---- facts about the output nodes, as far as graph_ok needs them ------------------------------------------------ *)
@@ -274,14 +291,14 @@ Lemma nodes_facts n : In n nodes -> node_fact n.
 Proof.
   intro Hn. destruct (Forall2_in_l _ _ _ nodes_rel n Hn) as [[[lp i] rp] [Hin Hr]].
   destruct (node_facts D reduce join K stranded HK T Hok Hsym n lp i rp Hr Hin) as (F1 & F2 & F3 & _ & _).
-  destruct (struct_chains D join K stranded T U U (seq_NoDup _ _) _ _ _ Hin) as (HcL & HcR & Hi).
+  destruct (struct_chains D join stranded T U U (seq_NoDup _ _) _ _ _ Hin) as (HcL & HcR & Hi).
   pose proof Hr as [ent [Hent Heq]].
   constructor.
   - rewrite F3. lia.
   - subst n. unfold CompressSpec.n_seq. cbn [fst]. apply node_seq_wf.
   - intros w Hw. assert (Hk : In (ck w) (node_keys D K stranded n)) by (unfold node_keys, node_windows; now apply in_map).
-    rewrite F2 in Hk. apply in_map_iff in Hk as [v [<- Hv]]. rewrite <- (map_kkey_U D T). apply in_map.
-    assert (Hvs : chain nat anext i L lp /\ chain nat anext i R rp) by auto.
+    rewrite F2 in Hk. apply in_map_iff in Hk as [v [<- Hv]]. rewrite <- (map_kkey_U D K HK T). apply in_map.
+    assert (Hvs : AbstractWalk.chain nat anext i L lp /\ AbstractWalk.chain nat anext i R rp) by auto.
     unfold node_verts, verts in Hv. apply in_app_or in Hv as [Hv|[<-|Hv]].
     + apply in_rev, in_map_iff in Hv as [wt [<- Hwt]].
       destruct (chain_valid D join stranded T _ _ _ HcL wt Hwt) as [e He]. apply in_seq. split; [lia|]. cbn.
@@ -292,24 +309,16 @@ Proof.
       apply nth_error_Some. congruence.
   - intros w Hw Hp. rewrite F3.
     destruct lp as [|a lp]; [destruct rp as [|a rp]; [cbn; lia|]|]; exfalso.
-    + (* right path not empty *)
-      assert (Hk : In (ck w) (node_keys D K stranded n)) by (unfold node_keys, node_windows; now apply in_map).
-      rewrite F2 in Hk. apply in_map_iff in Hk as [v [Hv1 Hv]].
-      assert (Ww : wf_dna w) by (apply (wf_kmers_ K (CompressSpec.n_seq D n)); auto; subst n; apply node_seq_wf).
-      rewrite <- kpal_ck, <- Hv1 in Hp by exact Ww.
-      destruct (chain_nonpal _ _ _ HcR) as [P1 P2]. unfold node_verts, verts in Hv. cbn [rev map app] in Hv.
-      destruct Hv as [<-|Hv].
-      * rewrite P1 in Hp; [discriminate | discriminate].
-      * apply in_map_iff in Hv as [wt [<- Hwt]]. rewrite (P2 wt Hwt) in Hp. discriminate.
     + assert (Hk : In (ck w) (node_keys D K stranded n)) by (unfold node_keys, node_windows; now apply in_map).
       rewrite F2 in Hk. apply in_map_iff in Hk as [v [Hv1 Hv]].
       assert (Ww : wf_dna w) by (apply (wf_kmers_ K (CompressSpec.n_seq D n)); auto; subst n; apply node_seq_wf).
       rewrite <- kpal_ck, <- Hv1 in Hp by exact Ww.
-      destruct (chain_nonpal _ _ _ HcL) as [P1 P2]. destruct (chain_nonpal _ _ _ HcR) as [_ P3].
-      unfold node_verts, verts in Hv. apply in_app_or in Hv as [Hv|[<-|Hv]].
-      * apply in_rev, in_map_iff in Hv as [wt [<- Hwt]]. rewrite (P2 wt Hwt) in Hp. discriminate.
-      * rewrite P1 in Hp; [discriminate | discriminate].
-      * apply in_map_iff in Hv as [wt [<- Hwt]]. rewrite (P3 wt Hwt) in Hp. discriminate.
+      rewrite (verts_nonpal [] i (a :: rp) v HcL HcR) in Hp; [discriminate | right; discriminate | exact Hv].
+    + assert (Hk : In (ck w) (node_keys D K stranded n)) by (unfold node_keys, node_windows; now apply in_map).
+      rewrite F2 in Hk. apply in_map_iff in Hk as [v [Hv1 Hv]].
+      assert (Ww : wf_dna w) by (apply (wf_kmers_ K (CompressSpec.n_seq D n)); auto; subst n; apply node_seq_wf).
+      rewrite <- kpal_ck, <- Hv1 in Hp by exact Ww.
+      rewrite (verts_nonpal (a :: lp) i rp v HcL HcR) in Hp; [discriminate | left; discriminate | exact Hv].
   - destruct (node_terminal D join K stranded HK T Hok Hsym lp i rp ent Hent HcL HcR) as (el & er & H1 & H2 & H3).
     subst n. unfold CompressSpec.n_seq, CompressSpec.n_exts. cbn [fst snd]. exists el, er. auto.
 Qed.
@@ -345,15 +354,15 @@ Proof. destruct s; reflexivity. Qed.
 Theorem nodes_exts_sym : EdgeSpec.exts_sym D K stranded nodes.
 Proof.
   intros u s b v t f Hu Hb He Hl b'.
-  destruct (nth_error nodes u) as [n|] eqn:En; [|apply nth_error_None in En; lia].
+  unfold EdgeSpec.node_exts, EdgeSpec.node_seq in *. unfold graph, gnode, node in *.
+  destruct (@nth_error (dna * N * D)%type nodes u) as [n|] eqn:En; [|exfalso; apply nth_error_None in En; exact (Nat.lt_irrefl _ (Nat.lt_le_trans _ _ _ Hu En))].
   assert (Hn : In n nodes) by (eapply nth_error_In; eauto).
   destruct (nodes_facts n Hn) as [Fl Fw _ _ _].
-  unfold EdgeSpec.node_exts, EdgeSpec.node_seq in *. rewrite En in *.
   set (x := term_kmer K (GraphModel.n_seq D n) s) in *.
-  destruct (term_kmer_ok K _ s Fw Fl) as [Lx Wx]. fold x in Lx, Wx.
+  destruct (term_kmer_ok K _ s Fw Fl) as [Lx Wx]. change (length x = K) in Lx. change (wf_dna x) in Wx.
   assert (Hb4 : (b < 4)%N) by (unfold bases in Hb; cbn in Hb; destruct Hb as [<-|[<-|[<-|[<-|[]]]]]; lia).
   assert (Hbb : In b bases4) by exact Hb.
-  destruct (node_term_exts n s Hn) as (ex & Hex & Hexb). fold x in Hex. rewrite (Hexb b Hbb) in He.
+  destruct (node_term_exts n s Hn) as (ex & Hex & Hexb). change (oexts x = Some ex) in Hex. rewrite (Hexb b Hbb) in He.
   set (y := extend x b s) in *.
   assert (Hxne : x <> []) by (intro E; rewrite E in Lx; cbn in Lx; lia).
   assert (Wy : wf_dna y) by (apply extend_wf; auto).
@@ -361,19 +370,19 @@ Proof.
   assert (Hc4 : (c < 4)%N) by (unfold c; destruct (dflip s); cbn [outer]; [apply wf_hd | apply wf_last]; auto).
   (* the node found *)
   apply find_link_some in Hl.
-  assert (Hv : exists m z, nth_error nodes v = Some m /\ In m nodes /\ z = term_kmer K (GraphModel.n_seq D m) t /\
-                 ((f = false /\ t = dflip s /\ z = y) \/ (f = true /\ stranded = false /\ t = s /\ z = rc y))).
-  { destruct Hl as [(Hf & Ht & Hv & Hz)|(Hf & Hs & Ht & (Hv & Hz) & _)];
-      (destruct (nth_error nodes v) as [m|] eqn:Em; [|apply nth_error_None in Em; lia]);
-      unfold EdgeSpec.node_seq in Hz; rewrite Em in Hz; exists m, (term_kmer K (GraphModel.n_seq D m) t);
-      (split; [reflexivity|]); (split; [eapply nth_error_In; eauto|]); (split; [reflexivity|]); [left|right]; auto. }
-  destruct Hv as (m & z & Em & Hm & Hz & Hcase).
+  assert (Hv : v < length nodes /\
+                 ((f = false /\ t = dflip s /\ term_kmer K (EdgeSpec.node_seq D nodes v) t = y) \/
+                  (f = true /\ stranded = false /\ t = s /\ term_kmer K (EdgeSpec.node_seq D nodes v) t = rc y))).
+  { destruct Hl as [(Hf & Ht & Hv & Hz)|(Hf & Hs & Ht & (Hv & Hz) & _)]; (split; [exact Hv|]); [left|right]; auto. }
+  destruct Hv as [Hv Hcase]. unfold EdgeSpec.node_seq in Hcase. unfold graph, gnode, node in *.
+  destruct (@nth_error (dna * N * D)%type nodes v) as [m|] eqn:Em;
+    [|exfalso; apply nth_error_None in Em; exact (Nat.lt_irrefl _ (Nat.lt_le_trans _ _ _ Hv Em))].
+  assert (Hm : In m nodes) by (eapply nth_error_In; eauto).
+  remember (term_kmer K (GraphModel.n_seq D m) t) as z eqn:Hz.
   destruct (nodes_facts m Hm) as [Flm Fwm _ Fpm _].
   destruct (node_term_exts m t Hm) as (ez & Hez & Hezb). rewrite <- Hz in Hez.
   assert (Hzin : In z (kmers K (GraphModel.n_seq D m))) by (rewrite Hz; now apply term_in_kmers).
-  assert (Hpr : kpal (rc y) = kpal y).
-  { rewrite <- (kpal_ck (rc y)) by apply rc_wf. destruct stranded eqn:St; [reflexivity|].
-    rewrite ck_rc by auto. now apply kpal_ck. }
+  assert (Hpr : kpal (rc y) = kpal y) by (unfold CompressSpec.kpal; f_equal; now apply is_pal_rc).
   (* a palindromic target is a node of its own: both of its terminal k-mers are z *)
   assert (Hsingle : kpal z = true -> EdgeSpec.pal_single D K stranded nodes v /\
             forall t', exists e', oexts z = Some e' /\
@@ -382,29 +391,28 @@ Proof.
     assert (Ez : forall t', term_kmer K (GraphModel.n_seq D m) t' = z).
     { intro t'. rewrite Hz. rewrite !term_kmer_single by exact Lm. reflexivity. }
     apply kpal_iff in Hp as [Hs Hzz]. split.
-    - unfold EdgeSpec.pal_single, EdgeSpec.node_seq. rewrite Em. repeat split; auto.
-      + apply nth_error_Some. congruence.
-      + rewrite <- (term_kmer_single K _ t Lm), <- Hz. exact Hzz.
+    - unfold EdgeSpec.pal_single, EdgeSpec.node_seq. unfold graph, gnode, node. rewrite Em. repeat split; auto.
+      rewrite <- (term_kmer_single K _ t Lm), <- Hz. exact Hzz.
     - intro t'. destruct (node_term_exts m t' Hm) as (e' & He' & Heb'). rewrite Ez in He'. eauto. }
   unfold b'. destruct Hcase as [(-> & -> & Ezy)|(-> & Hs & -> & Ezy)].
   - (* no strand change: z = y *)
     rewrite Ezy in *. destruct (osym_frame x s b ex ez Wx Lx Hb4 Hex He Hez) as [P1 P2]. fold c in P1, P2.
     rewrite <- outer_back. fold c.
     destruct (kpal y) eqn:Hp.
-    + destruct (Hsingle eq_refl) as [Hps Hboth]. destruct (P2 eq_refl) as [P|P].
-      * left. rewrite Em. now rewrite (Hezb c (in_bases4 c Hc4)).
-      * right. split; [exact Hps|]. rewrite Em, dflip_dflip. destruct (Hboth s) as (e' & He' & Heb').
+    + destruct (Hsingle eq_refl) as [Hps Hboth]. destruct (P2 Hp) as [P|P].
+      * left. now rewrite (Hezb c (in_bases4 c Hc4)).
+      * right. split; [exact Hps|]. rewrite dflip_dflip. destruct (Hboth s) as (e' & He' & Heb').
         assert (e' = ez) by congruence. subst e'. now rewrite (Heb' _ (in_bases4 _ (comp_lt4 c))).
-    + left. rewrite Em. rewrite (Hezb c (in_bases4 c Hc4)). now apply P1.
+    + left. rewrite (Hezb c (in_bases4 c Hc4)). now apply P1.
   - (* strand change: z = rc y, found on side s *)
     assert (Hbk : back_base x s true = comp c) by (unfold c; destruct s; reflexivity). rewrite Hbk.
     destruct (kpal y) eqn:Hp.
     + pose proof (proj1 (kpal_iff y) Hp) as [_ Hyy]. rewrite <- Hyy in Ezy. rewrite Ezy in *.
       destruct (osym_frame x s b ex ez Wx Lx Hb4 Hex He Hez) as [_ P2]. fold c in P2.
       destruct (Hsingle Hp) as [Hps Hboth]. destruct (P2 Hp) as [P|P].
-      * right. split; [exact Hps|]. rewrite Em, comp_involutive by exact Hc4. destruct (Hboth (dflip s)) as (e' & He' & Heb').
+      * right. split; [exact Hps|]. rewrite comp_involutive by exact Hc4. destruct (Hboth (dflip s)) as (e' & He' & Heb').
         assert (e' = ez) by congruence. subst e'. now rewrite (Heb' _ (in_bases4 _ Hc4)).
-      * left. rewrite Em. now rewrite (Hezb _ (in_bases4 _ (comp_lt4 c))).
+      * left. now rewrite (Hezb _ (in_bases4 _ (comp_lt4 c))).
     + assert (Hyne : y <> rc y) by (intro E; assert (kpal y = true) by (apply kpal_iff; auto); congruence).
       assert (Hzne : z <> rc z).
       { rewrite Ezy, ListFacts.rc_involutive by exact Wy. congruence. }
@@ -412,7 +420,7 @@ Proof.
       pose proof (oexts_rc z ez Wz Hs Hzne Hez) as Hey. rewrite Ezy, ListFacts.rc_involutive in Hey by exact Wy.
       destruct (osym_frame x s b ex (e_rc ez) Wx Lx Hb4 Hex He Hey) as [P1 _]. fold c in P1. specialize (P1 Hp).
       rewrite has_ext_rc' in P1 by (eauto using oexts_lt). rewrite dflip_dflip in P1.
-      left. rewrite Em. now rewrite (Hezb _ (in_bases4 _ (comp_lt4 c))).
+      left. now rewrite (Hezb _ (in_bases4 _ (comp_lt4 c))).
 Qed.
 
 Theorem nodes_graph_ok : graph_ok D K stranded nodes.
@@ -428,3 +436,46 @@ Proof.
   destruct (compress_refines D reduce join K stranded HK T Hok Hsym) as [nodes [Hc _]].
   exists nodes. split; [exact Hc|]. exact (nodes_graph_ok D reduce join K stranded HK T Hok Hsym Hpal nodes Hc).
 Qed.
+
+(* ---- the third entry point (compress_kmers_no_exts): extensions derived from set membership also meet [exts_sym_pal],
+   so every graph it builds is graph_ok ---- *)
+Section DerivedPal.
+Variable D : Type.
+Variable K : nat.
+Variable stranded : bool.
+Hypothesis HK : 1 <= K.
+Variable kds : list (dna * D).
+Hypothesis Hnd : NoDup (map fst kds).
+Hypothesis Hkeys : forall k, In k (map fst kds) -> length k = K /\ wf_dna k /\ (stranded = false -> canon k = k).
+Local Notation T := (derived_table D stranded kds).
+
+Theorem derive_exts_sym_pal : exts_sym_pal D stranded T.
+Proof.
+  intros ent d b yent Hin Hb Hh. cbv zeta. intros Hg _.
+  destruct (derived_in D stranded kds _ Hin) as [Hk He].
+  apply (get_entry_Some D T) in Hg. destruct Hg as [Hyin Hyk].
+  destruct (derived_in D stranded kds _ Hyin) as [Hyk' Hye]. rewrite Hye, Hyk.
+  set (k := e_key D ent) in *.
+  destruct (Hkeys k Hk) as (Hlen & Hwf & Hcan).
+  assert (Hne : k <> []) by (intro E; rewrite E in Hlen; cbn in Hlen; lia).
+  assert (Ho4 : (outer k (dflip d) < 4)%N).
+  { destruct d; cbn [dflip outer]; [apply wf_last | apply wf_hd]; auto. }
+  destruct (kcanon_flip stranded (extend k b d)) as [y fl] eqn:Hyf. cbn [fst snd] in *.
+  rewrite !derive_has_ext by (try apply comp_lt4; exact Ho4).
+  unfold present.
+  destruct (kcanon_flip_cases _ _ _ _ Hyf) as [[-> Hy]|[Hst [-> Hy]]].
+  - left. rewrite Hy, KmerAlgebra.extend_back by auto. rewrite (canon_k_key D K stranded kds Hkeys k Hk).
+    now apply present_key.
+  - right. rewrite Hy, rc_extend by auto. rewrite <- (outer_rc k d Hne).
+    assert (Hrne : rc k <> []) by (intro E; apply (proj1 (rc_nil_iff k)) in E; exact (Hne E)).
+    pose proof (KmerAlgebra.extend_back (rc k) (comp b) (dflip d) Hrne) as EB. rewrite dflip_dflip in EB. rewrite EB.
+    unfold canon_k. rewrite Hst. rewrite canon_rc by auto. rewrite (Hcan Hst). now apply present_key.
+Qed.
+
+Corollary no_exts_graph_ok reduce join :
+  exists nodes, compress_kmers D reduce join stranded T = Some nodes /\ graph_ok D K stranded nodes.
+Proof.
+  destruct (derived_ok D K stranded HK kds Hnd Hkeys) as [Hok Hsym].
+  apply compress_graph_ok; auto. exact derive_exts_sym_pal.
+Qed.
+End DerivedPal.
